@@ -187,8 +187,8 @@ def odd_tree(rng, root):
             lines = rng.sample(ODD_LINES, rng.randrange(1, 4))
             if rng.random() < 0.5:
                 lines += odd_structure(rng, root, L, mp)
-            if rng.random() < 0.01:
-                lines.append('MANIFEST ./Manifest 0')      # self-reference (slow: known finding F22)
+            if rng.random() < 0.003:
+                lines.append('MANIFEST ./Manifest 0')      # self-reference (slow, ~15 s per command: known finding F22)
             with open(os.path.join(root, mp), 'ab') as f:
                 f.write(('\n'.join(lines) + '\n').encode('utf8'))
             if 'DATA dir-entry 0' in ' '.join(lines):
